@@ -124,7 +124,7 @@ def rle_encode(values, width, style='greedy', rng=None):
         run = j - i
         if style in ('zero_runs',) and rng and rng.random() < 0.3 and not pend:
             out.extend(uleb(0 << 1))
-            out.extend(int(0).to_bytes(vb, 'little'))       # zero-length RLE run
+            out.extend(int(rng.choice([0, (1 << width) - 1, rng.randrange(1 << width)]) if width else 0).to_bytes(vb, 'little'))       # zero-length RLE run: header 0, then the (unused) repeated value, which need not be zero
             if rng.random() < 0.5:
                 out.extend(uleb((0 << 1) | 1))               # zero-group bit-packed run
         use_rle = run >= 8
